@@ -183,4 +183,60 @@ theorem serializeEntries_spells (fmt : R → List UInt8) (pr : List UInt8 → Op
 
 end
 
+
+/-! ### totality of the writer -/
+
+theorem returns_bind {α β : Type} {x : Out α} {f : α → Out β} (hx : x.Returns) (hf : ∀ a, (f a).Returns) :
+    (x.bind f).Returns := by
+  cases x with
+  | ok a => exact hf a
+  | err => simp [Out.bind, Out.Returns]
+  | panic => exact absurd rfl hx.1
+  | oof => exact absurd rfl hx.2
+
+theorem returns_ok {α : Type} (a : α) : (Out.ok a).Returns := by simp [Out.Returns]
+theorem returns_err {α : Type} : (Out.err : Out α).Returns := by simp [Out.Returns]
+
+mutual
+theorem serialize_returns (fmt : R → List UInt8) (v : Prim R) : (serialize fmt v).Returns := by
+  cases v with
+  | null => exact returns_ok _
+  | int i => exact returns_ok _
+  | real r => exact returns_ok _
+  | bool b => exact returns_ok _
+  | str s => exact returns_ok _
+  | name s => exact returns_ok _
+  | ref i g => exact returns_ok _
+  | stream info inner =>
+    simp only [serialize]
+    apply returns_bind (serializeEntries_returns fmt info)
+    intro d
+    cases inner with
+    | inFile a b c d => exact returns_err
+    | pending data => exact returns_ok _
+  | dict kvs =>
+    simp only [serialize]
+    exact returns_bind (serializeEntries_returns fmt kvs) (fun _ => returns_ok _)
+  | arr xs =>
+    simp only [serialize]
+    exact returns_bind (serializeList_returns fmt xs true) (fun _ => returns_ok _)
+theorem serializeList_returns (fmt : R → List UInt8) (xs : List (Prim R)) (first : Bool) :
+    (serializeList fmt xs first).Returns := by
+  cases xs with
+  | nil => exact returns_ok _
+  | cons x xs =>
+    simp only [serializeList]
+    exact returns_bind (serialize_returns fmt x) (fun _ =>
+      returns_bind (serializeList_returns fmt xs false) (fun _ => returns_ok _))
+theorem serializeEntries_returns (fmt : R → List UInt8) (kvs : List (List UInt8 × Prim R)) :
+    (serializeEntries fmt kvs).Returns := by
+  cases kvs with
+  | nil => exact returns_ok _
+  | cons kv kvs =>
+    obtain ⟨k, v⟩ := kv
+    simp only [serializeEntries]
+    exact returns_bind (serialize_returns fmt v) (fun _ =>
+      returns_bind (serializeEntries_returns fmt kvs) (fun _ => returns_ok _))
+end
+
 end PdfLex
